@@ -224,6 +224,18 @@ class ServerFixture(object):
             elif kind == "half_header":
                 s.sendall(b"\x00\x00")
                 time.sleep(0.05)
+            elif kind == "poison_reply":
+                # a well-formed but hostile conversation: a request whose argument is a reference to an object "of the client's", so
+                # that the server asks back for its class (its own request number 0) - and the answer is an exception that is not
+                # an Exception (SystemExit, KeyboardInterrupt, GeneratorExit), which the server's handler must not let through
+                from harness import refbrine
+                name = rnd.choice(["SystemExit", "KeyboardInterrupt", "GeneratorExit"])
+                ref = (4, ("evil.Thing", 1000 + rnd.randrange(1000), 2000 + rnd.randrange(1000)))      # LABEL_REMOTE_REF
+                for msg in ((1, 1, (1, (2, (ref,)))),                                                  # MSG_REQUEST, HANDLE_PING
+                            (3, 0, (("builtins", name), (), (), "no traceback"))):                     # MSG_EXCEPTION to request 0
+                    body = refbrine.dump(msg)
+                    s.sendall(struct.pack("!LB", len(body), 0) + body + b"\n")
+                time.sleep(0.15)
             elif kind in ("connect_only", "auth_fail"):
                 pass
             if rnd.random() < 0.5:
